@@ -356,3 +356,39 @@ def coordinate_precondition(eng):
                 and ekey(node.test.left).split(".")[-1] in caps:
             return node.test
     return None
+
+
+def expanded_guard_atoms(eng, atoms):
+    """Guard atoms with boolean one-expression helpers looked through: `not _has_bad_values(g, H)` with `def _has_bad_values(g, H): return A or B or not C` is the
+    conjunction of not A, not B, C.  Returns the original atoms plus the derived ones."""
+    from ..norm import Atom
+    out = list(atoms)
+    work = list(atoms)
+    seen = 0
+    while work and seen < 200:
+        a = work.pop()
+        seen += 1
+        if a.op not in ("truth", "false") or a.lhs is None:
+            continue
+        e = a.lhs
+        if isinstance(e, ast.Call):
+            ie = inline_simple_calls(eng, e, depth=1)
+            if isinstance(ie, ast.Call):
+                continue
+            e = ie
+        neg = a.op == "false"
+        if isinstance(e, ast.UnaryOp) and isinstance(e.op, ast.Not):
+            na = atom_of(e.operand, neg)           # not X being `neg`-false means X has truth `neg`
+            out.append(na)
+            work.append(na)
+        elif isinstance(e, ast.BoolOp):
+            if (isinstance(e.op, ast.Or) and neg) or (isinstance(e.op, ast.And) and not neg):
+                for v in e.values:
+                    na = atom_of(v, not neg)
+                    out.append(na)
+                    work.append(na)
+        elif e is not a.lhs:
+            na = atom_of(e, not neg)
+            out.append(na)
+            work.append(na)
+    return out
